@@ -78,6 +78,7 @@ class World:
         self.m = {}          # handle -> dict model
         self.cls = {}        # handle -> class name
         self.family = {}     # handle -> key family id (shared key storage)
+        self.inputs = {}     # handle -> (keys array, values array) objects given to its constructor
         self.stats = {}
         self.audits = 0
 
@@ -146,6 +147,9 @@ class World:
     def op_new(self, i, op):
         cls = CLASSES[op["cls"]]
         keys = _keyarr(op["keys"], op.get("key_dtype"))
+        shared = self.inputs.get(op.get("same_inputs_as"))
+        if shared is not None:
+            keys = shared[0]          # the very same array objects an earlier table was built from
         kw = {}
         if op.get("keys_as_list"):
             keys = list(op["keys"])
@@ -163,6 +167,9 @@ class World:
             else:
                 v = np.array(val[2], dtype=val[1])
                 model = {int(kk): _pyval(x) for kk, x in zip(op["keys"], v.tolist())}
+                if shared is not None and shared[1] is not None:
+                    v = shared[1]
+                    self.count("tables_built_from_shared_input_arrays")
             if op.get("value_dtype"):
                 kw["value_dtype"] = np.dtype(op["value_dtype"]).type
             if op["cls"] == "Counter" and val[0] == "scalar" and v == 0 and op.get("default_init"):
@@ -174,6 +181,8 @@ class World:
         d = op["dst"]
         self.h[d], self.m[d], self.cls[d] = t, model, op["cls"]
         self.family[d] = d
+        if op["cls"] != "HashSet" and isinstance(keys, np.ndarray):
+            self.inputs[d] = (keys, v if isinstance(v, np.ndarray) else None)
         try:
             lens = np.asarray(t._keys.lengths)
             self.count("bucket_max_len_ge3" if lens.max(initial=0) >= 3 else "bucket_max_len_lt3")
